@@ -218,6 +218,7 @@ def one(ctx, case, tmpdir):
     ctx.count("steps", s.steps)
     ctx.count("context_switches", s.context_switches)
     ctx.count("timeouts_fired", s.timeouts_fired)
+    ctx.count("timed_waits_offered", s.timed_waits)
     ctx.maxi("queue_depth", s.max_queue_depth)
     if case.get("short_reads"):
         ctx.count("runs_with_short_reads")
@@ -269,6 +270,7 @@ def systematic(ctx, conf, tmpdir):
             ctx.count("systematic_schedules")
             ctx.count("steps", s.steps)
             ctx.count("timeouts_fired", s.timeouts_fired)
+            ctx.count("timed_waits_offered", s.timed_waits)
             ctx.maxi("queue_depth", s.max_queue_depth)
             if not check_run(ctx, dict(case, deviations={str(k): v for k, v in devs.items()}), data, res, expected, tmpdir):
                 ok = False
@@ -562,6 +564,7 @@ def timeout_marathon(ctx, tmpdir):
         res = P.run_pipeline(case, data, tmpdir, strategy=SS.Marathon(rng.getrandbits(32), 1300))
         ctx.count("timeout_marathon_runs")
         ctx.count("timeouts_fired", res.sched.timeouts_fired)
+        ctx.count("timed_waits_offered", res.sched.timed_waits)
         ctx.case(stable_hash(["marathon", observers, res.sched.steps]), True)
         check_run(ctx, case, data, res, expected, tmpdir)
 
@@ -667,10 +670,11 @@ def replay(ctx, case):
 
 def inconclusive(merged, tier):
     c = merged["counters"]
+    _timed = ["monitor never observed timeouts_fired"] if c.get("timed_waits_offered", 0) and not c.get("timeouts_fired", 0) else []  # (an implementation whose waits carry no timeout offers none to fire)
     need = ["scheduled_runs", "saver_runs", "blocks_checked", "joiner_files_checked", "joiner_files_with_zero_events",
             "region_dirs_checked", "region_files_checked", "runs_on_empty_stream", "runs_on_event_free_stream", "runs_with_a_stop", "runs_with_short_reads",
-            "big_audio_runs", "runs_whose_blocks_are_not_bytes_objects", "programs_whose_main_thread_returned_after_start_all", "runs_with_files_of_an_earlier_run_in_the_way", "runs_with_blocks_that_look_like_internal_messages", "saver_runs_over_an_overlapping_reader", "line_mode_runs", "instruction_mode_runs", "all_module_line_mode_runs", "timeouts_fired", "systematic_schedules", "systematic_pipelines_fully_enumerated", "stress_runs", "stress_files_checked", "huge_backlog_runs", "raw_export_runs", "unencodable_export_runs", "two_pipeline_runs", "timeout_marathon_runs"]
-    out = [f"monitor never observed {k}" for k in need if c.get(k, 0) == 0]
+            "big_audio_runs", "runs_whose_blocks_are_not_bytes_objects", "programs_whose_main_thread_returned_after_start_all", "runs_with_files_of_an_earlier_run_in_the_way", "runs_with_blocks_that_look_like_internal_messages", "saver_runs_over_an_overlapping_reader", "line_mode_runs", "instruction_mode_runs", "all_module_line_mode_runs", "systematic_schedules", "systematic_pipelines_fully_enumerated", "stress_runs", "stress_files_checked", "huge_backlog_runs", "raw_export_runs", "unencodable_export_runs", "two_pipeline_runs", "timeout_marathon_runs"]
+    out = [f"monitor never observed {k}" for k in need if c.get(k, 0) == 0] + _timed
     if max(c.get("max:queue_depth", 0), c.get("max:blocks_read_while_the_writer_did_not_run", 0)) < 16384:
         out.append("the writer never lagged by more than 16384 blocks")
     if c.get("inconclusive_runs", 0) > max(3, c.get("scheduled_runs", 0) // 50):
